@@ -312,6 +312,21 @@ fn oracle_combo<C: RangeCombo>(rng: &mut Rng, w: u32, s: u32, bps: &[(u32, Vec<u
             }
             let (pos, st) = coder.pos();
             snaps.push((pos, st, inv));
+            if rng.chance(1, 6) {
+                // `clone()` and `clone_from()` (into an encoder with other contents and situation) are copies
+                let before = show_enc::<C>(&coder);
+                let copy = coder.clone();
+                let mut other: Enc<C> = RangeEncoder::new();
+                other.clone_from(&copy);
+                rep.eval("C08");
+                rep.count("C08.clone_from");
+                let (a, b2) = (show_enc::<C>(&copy), show_enc::<C>(&other));
+                if a != before || b2 != before {
+                    caps.fail(rep, "C08", &tag, format!("{} | clone | raw => the encoder is {} but clone() gives {} and clone_from() into a fresh encoder gives {}", desc, before, a, b2));
+                    caps.fail(rep, "C02", &tag, format!("{} | clone | raw => the encoder is {} but clone() gives {} and clone_from() into a fresh encoder gives {}", desc, before, a, b2));
+                }
+                coder = other;
+            }
             let expected = export::<C>(&twin);
             rep.eval("C18");
             let (nw, nb, em) = (coder.num_words(), coder.num_bits(), coder.is_empty());
@@ -578,9 +593,55 @@ fn oracle_combo<C: RangeCombo>(rng: &mut Rng, w: u32, s: u32, bps: &[(u32, Vec<u
             caps.fail(rep, "C18", &tag, format!("{} | export | intodec{} | exhausted => false after exactly the encoded symbols", plain, msg_decs(&msg)));
         }
 
+        // ---------------- C02 over iterator sources: the same words through `FallibleIteratorReadWords` /
+        // `InfallibleIteratorReadWords`, from an exact-size iterator and from one without an upper size
+        // bound (`iter::from_fn`, what a file or socket reader looks like): same symbols, and possibly
+        // exhausted after the last one ----------------
+        {
+            use constriction::backends::FallibleIteratorReadWords;
+            note("C02", &format!("{} | export | iterator-source{} | exhausted", rt, msg_decs(&msg)));
+            let ws: Vec<C::W> = words::<C::W>(&payload);
+            for kind in 0..2u32 {
+                rep.eval("C02");
+                rep.count("C02.iterator_source");
+                let res: Result<Result<bool, String>, &'static str> = guarded(|| match kind {
+                    0 => {
+                        let mut d = RangeDecoder::<C::W, C::S, _>::with_backend(FallibleIteratorReadWords::new(ws.clone().into_iter().map(Ok::<_, ()>))).map_err(|_| "decoder refused".to_string())?;
+                        decode_expect::<C, _>(&mut d, &msg)?;
+                        Ok(d.maybe_exhausted())
+                    }
+                    1 => {
+                        let mut it = ws.clone().into_iter();
+                        let mut d = RangeDecoder::<C::W, C::S, _>::with_backend(FallibleIteratorReadWords::new(std::iter::from_fn(move || it.next().map(Ok::<_, ()>)))).map_err(|_| "decoder refused".to_string())?;
+                        decode_expect::<C, _>(&mut d, &msg)?;
+                        Ok(d.maybe_exhausted())
+                    }
+                    _ => unreachable!(),
+                });
+                let names = ["FallibleIteratorReadWords over an exact-size iterator", "FallibleIteratorReadWords over iter::from_fn (no upper size bound)", "InfallibleIteratorReadWords over iter::from_fn (no upper size bound)"];
+                match res {
+                    Ok(Ok(true)) => {}
+                    Ok(Ok(false)) => caps.fail(rep, "C02", &tag, format!("{} | export | decoder over {}{} | exhausted => false after the last symbol", rt, names[kind as usize], msg_decs(&msg))),
+                    Ok(Err(t)) => caps.fail(rep, "C02", &tag, format!("{} | export | decoder over {}{} => {}", rt, names[kind as usize], msg_decs(&msg), t)),
+                    Err(class) => caps.fail(rep, "C02", &tag, format!("{} | export | decoder over {}{} => {}", rt, names[kind as usize], msg_decs(&msg), class)),
+                }
+            }
+        }
+
         // ---------------- C07: random access ----------------
         {
             note("C07", &format!("{} | intodec | seekto …", desc_with_snaps(&head, &msg)));
+            // a snapshot's state can be rebuilt from its two numbers through the public constructor
+            // (a stored jump table, the Python binding's `seek(position, (lower, range))`)
+            for (i, (_, st, _)) in snaps.iter().enumerate() {
+                rep.eval("C07");
+                let rebuilt = RangeCoderState::<C::W, C::S>::new(st.lower(), st.range().get());
+                let same = match &rebuilt { Ok(r) => r.lower() == st.lower() && r.range() == st.range(), Err(_) => false };
+                if !same {
+                    caps.fail(rep, "C07", &tag, format!("{} (snap after symbol {:x}) => RangeCoderState::new({:x}, {:x}) {} although the encoder handed out this snapshot", desc_with_snaps(&head, &msg), i, to_u128(st.lower()), to_u128(st.range().get()), if rebuilt.is_err() { "is rejected" } else { "differs" }));
+                    break;
+                }
+            }
             // owned, and borrowed backends, full data (prefix included: positions count it)
             let mut owned: Dec<C> = RangeDecoder::from_compressed(sealed_w.clone()).unwrap();
             let mut borrowed = RangeDecoder::<C::W, C::S, Cursor<C::W, &[C::W]>>::from_compressed(&sealed_w[..]).unwrap();
